@@ -324,7 +324,7 @@ def synth_history(h, via_dir, fmt):
 def run_c15(pid, tier):
     R = Run(pid, tier)
     extract.write()
-    maxn, maxargs = (3, 1) if tier == "quick" else (3, 2)
+    maxn, maxargs = (3, 1) if tier == "quick" else (3, 2)      # quick: + every overlapping pair of arguments (Driver.tla OverlapArgs)
     R.cov["rule"] = (f"all directory trees with up to {maxn} nodes (files with .c/.h/look-alike suffixes, names with spaces and dots, "
                      f"directories incl. one named sub.c, nesting, git-ignored files) x all argument lists of length 0..{maxargs} "
                      "(files, directories with/without trailing slash, a missing path), with and without --use-gitignore (TLC, exhaustive "
@@ -334,8 +334,8 @@ def run_c15(pid, tier):
         return R.finish()
     r = rng("c15")
     budget = 2500 if tier == "quick" else 12000
-    small = [e for e in exports if len(e["tree"]) <= 2]
-    big = [e for e in exports if len(e["tree"]) > 2]
+    small = [e for e in exports if len(e["tree"]) <= 2 or (len(e["args"]) == 2 and maxargs < 2)]
+    big = [e for e in exports if not (len(e["tree"]) <= 2 or (len(e["args"]) == 2 and maxargs < 2))]
     chosen = small + (r.sample(big, min(len(big), max(0, budget - len(small)))) if big else [])
     if len(chosen) < len(exports):
         R.cov["exhaustive"] = False
